@@ -59,8 +59,8 @@ func (e *pEntry) sortedGroups() []uint64 {
 }
 
 type pathModel struct {
-	segs map[string]*pEntry    // upper-case hex segment id -> entry
-	nq   map[string]time.Time  // "src>dst" -> stored next-query time
+	segs map[string]*pEntry   // upper-case hex segment id -> entry
+	nq   map[string]time.Time // "src>dst" -> stored next-query time
 }
 
 func newPathModel() *pathModel {
@@ -190,6 +190,8 @@ func (w *pathWorld) step(i int, inTx bool) {
 		w.opNextQuery(i)
 	case k < 20:
 		w.opClock(i)
+	case k == 21 && !inTx && !w.loc.mem:
+		w.opTwoWriters(i)
 	case k < 22:
 		w.opTx(i)
 	case k == 22:
@@ -709,6 +711,100 @@ func (w *pathWorld) opClock(i int) {
 
 // opTx runs a few operations inside one pathdb transaction and commits or rolls it back; with faults
 // the process may be killed while the transaction is open, or its context cancelled before commit.
+// opTwoWriters: a plain insert of one version of a segment is issued while a transaction holds the
+// store's single write connection; the transaction then stores another version of the same segment
+// and commits. The plain insert can only take effect after the commit, so the outcome must be that
+// of "transaction first, plain insert second" - in particular an older version never replaces the
+// newer one the transaction stored. (Schedule: the second writer is a real goroutine; the simulator
+// waits until it is durably blocked on the write connection before the transaction goes on.)
+func (w *pathWorld) opTwoWriters(i int) {
+	r := w.r
+	if w.cur != w.m {
+		w.opClock(i)
+		return
+	}
+	sh := w.p.shapes[r.Choice("race.shape", len(w.p.shapes))]
+	if len(sh.vers) < 2 {
+		w.opClock(i)
+		return
+	}
+	va := sh.vers[r.Choice("race.ver.plain", len(sh.vers))]
+	vb := sh.vers[r.Choice("race.ver.tx", len(sh.vers))]
+	ta, tb := typePool[r.Choice("race.type.plain", 3)], typePool[r.Choice("race.type.tx", 3)]
+	ctx := context.Background()
+	tx, err := w.db.BeginTransaction(ctx, nil)
+	if err != nil {
+		r.Fail("c27-op-error", "op-error:BeginTransaction", "BeginTransaction failed: %v", errText(err))
+		return
+	}
+	type res struct {
+		st  pathdb.InsertStats
+		err error
+	}
+	done := make(chan res, 1)
+	db := w.db
+	go func() {
+		st, err := db.Insert(ctx, &seg.Meta{Segment: va.seg, Type: ta})
+		done <- res{st, err}
+	}()
+	synctest.Wait() // the plain writer now waits for the write connection
+	select {
+	case x := <-done:
+		tx.Rollback()
+		r.Fail("c27-two-writers", "two-writers:not-serialised", "a plain insert finished (err=%v) while a transaction held the write connection", x.err != nil)
+		return
+	default:
+	}
+	stB, errB := tx.Insert(ctx, &seg.Meta{Segment: vb.seg, Type: tb})
+	if errB == nil {
+		errB = tx.Commit()
+	}
+	if errB != nil {
+		tx.Rollback()
+		synctest.Wait()
+		<-done
+		r.Fail("c27-op-error", "op-error:two-writers-tx", "transaction of the two-writer step failed: %v", errText(errB))
+		return
+	}
+	synctest.Wait()
+	a := <-done
+	if a.err != nil {
+		r.Fail("c27-op-error", "op-error:two-writers-plain", "plain insert of the two-writer step failed: %v", errText(a.err))
+		return
+	}
+	r.Fault("sched.two-writers")
+	// reference: transaction first, plain insert second
+	for _, step := range []struct {
+		v   *ver
+		t   seg.Type
+		st  pathdb.InsertStats
+		who string
+	}{{vb, tb, stB, "transaction"}, {va, ta, a.st, "plain insert"}} {
+		class := w.cur.insert(step.v, step.t, []uint64{0})
+		wantIns, wantUpd := 0, 0
+		switch class {
+		case "new":
+			wantIns = 1
+		case "newer":
+			wantUpd = 1
+		}
+		if wantIns+wantUpd > 0 {
+			w.accepted++
+			if mx, ok := w.everMax[sh.idHex]; !ok || step.v.signTS.After(mx) {
+				w.everMax[sh.idHex] = step.v.signTS
+			}
+		}
+		r.Logf("#%d two writers: %s %v sign=%d type=%v class=%s", i, step.who, step.v, step.v.signTS.UnixMilli(), step.t, class)
+		r.Covered("p.twowriters:" + step.who + ":" + class)
+		if step.st.Inserted != wantIns || step.st.Updated != wantUpd {
+			r.Fail("c27-two-writers", "two-writers:stats:"+class, "two writers on segment %s: the %s of %v reported inserted=%d updated=%d, reference (transaction first, plain insert second) says inserted=%d updated=%d",
+				sh.idHex, step.who, step.v, step.st.Inserted, step.st.Updated, wantIns, wantUpd)
+			return
+		}
+	}
+	w.segCheck(sh, "after two concurrent writers")
+}
+
 func (w *pathWorld) opTx(i int) {
 	r := w.r
 	if w.cur != w.m {
